@@ -127,8 +127,7 @@ def _cell_red(attr):
     return f
 
 
-models.EXTERNALS["numpy.min"] = _cell_red("min")
-models.EXTERNALS["numpy.max"] = _cell_red("max")
+# numpy.min / numpy.max of an image region: generic model in pyvc/models.py (reduction of the Skolem cell's array)
 
 
 @models.external("scipy.ndimage.binary_dilation")
